@@ -80,7 +80,12 @@ def build(case):
     if fmt == "mge":
         pix = M.rand_pixels(rng, 320, 200, kind)
         rgb = case["rgb"]
-        return fmt, M.enc_mge(pix, pal, rgb, False), [], M.expected_mge(pix, pal, rgb), "mge raw %s" % ("rgb" if rgb else "cmp")
+        M.MGE_FLAG[0] = case.get("flag", 1)
+        try:
+            data = M.enc_mge(pix, pal, rgb, False)
+        finally:
+            M.MGE_FLAG[0] = 1
+        return fmt, data, [], M.expected_mge(pix, pal, rgb), "mge raw %s flag%d" % ("rgb" if rgb else "cmp", case.get("flag", 1))
     if fmt == "cm3":
         two, pat = case["two"], case["pat"]
         pix = M.rand_pixels(rng, 320, 384 if two else 192, kind)
@@ -161,6 +166,10 @@ def cases(tier, seed):
         if not q or k % 8 == 0:
             yield c(fmt="vef", vt=1, kind="alt", pal=k)
             yield c(fmt="vef", vt=3, kind="alt", pal=k)
+    for flag in (255, 2, 3, 128, 254, 64):
+        # "not zero" spelled in other ways than 1 in the two MGE flag bytes
+        for rgb in (True, False):
+            yield c(fmt="mge", rgb=rgb, kind="random", flag=flag)
     for vt in (0, 1, 3):
         for kind in ("random", "alt"):
             yield c(fmt="vef", vt=vt, kind=kind, highbits=True)
